@@ -159,7 +159,18 @@ def gen_case(rng, tier):
     elif f == 'specific-undeclared-register':
         isa['instructions']['tst']['variants'][0]['operands']['specific_operands']['s0']['list']['xr']['register'] = 'qq'
     elif f == 'count-mismatch':
-        isa['instructions']['ldi']['operands']['count'] = rng.choice([1, 3])
+        k = rng.random()
+        if k < 0.5:
+            isa['instructions']['ldi']['operands']['count'] = rng.choice([1, 3])
+        elif k < 0.75:
+            # the list of operand sets is present but EMPTY while operands are prescribed
+            isa['instructions']['ldi']['operands']['operand_sets']['list'] = []
+        else:
+            # ... also next to a specific_operands block, and in a macro variant
+            if rng.random() < 0.5:
+                isa['instructions']['tst']['variants'][0]['operands']['operand_sets'] = {'list': []}
+            else:
+                isa['macros']['mac'][0]['operands']['operand_sets']['list'] = []
     elif f == 'inverted-nb':
         lo_, hi_ = rng.choice([(9, 0), (9, 8), (0, -1), (1, 0), (3, 2)])
         isa['operand_sets']['misc']['operand_values']['nb']['bytecode'].update(min=lo_, max=hi_)
